@@ -6,7 +6,7 @@ import os
 from typing import List, Optional, Tuple
 
 from ..collect import default_inline, Path, callee_is, run_paths
-from ..common import calls_in, construct, where
+from ..common import unit_inline, calls_in, construct, where
 from ..flow import NONE, Value, contains, show, split_prefix, split_suffix, subterms
 from ..loader import AnalysisError, ClassInfo, FuncInfo, Program, walk_shallow
 from ..report import Report
@@ -52,6 +52,12 @@ def _req_path(v: Value, side: str) -> bool:
     return v[0] == "sub" and show(v[1]) == "scope" and v[2] == ("const", "path")
 
 
+_SF_MODS = ("baize.staticfiles", "baize.wsgi.staticfiles", "baize.asgi.staticfiles")
+_SF_KEEPS = ("ensure_absolute_path", "check_path_is_file", "file_response", "request_path", "set_response_headers", "if_none_match", "if_modified_since", "__call__", "__init__", "normalize_dir_path")
+_SF = unit_inline(_SF_MODS, _SF_KEEPS)
+_SF_UTILS = unit_inline(_SF_MODS + ("baize.utils",), _SF_KEEPS)
+
+
 def _confined(v: Value, side: str) -> Optional[str]:
     """None if v is  ensure_absolute_path(<request path>) [+ safe constant suffix]* ; otherwise why not."""
     while split_suffix(v) is not None:
@@ -62,10 +68,54 @@ def _confined(v: Value, side: str) -> Optional[str]:
         if _req_path(v[2][0], side):
             return None
         return f"sanitiser applied to {show(v[2][0])}, not to the request path"
+    if v[0] == "phi":
+        for alt in v[1]:
+            why = _confined(alt[2] if alt[0] == "when" else alt, side)
+            if why is not None:
+                return why
+        return None
+    if v[0] == "elem":
+        # one of several candidates: every candidate must be confined
+        src = v[1]
+        if src[0] in ("list", "tuple") and src[1] and not any(x[0] == "star" for x in src[1]):
+            for x in src[1]:
+                why = _confined(x, side)
+                if why is not None:
+                    return why
+            return None
+        if src[0] == "gen" and _P:
+            # a generator of candidates: what it yields, with its parameters replaced by the arguments
+            try:
+                g = _P[0].func(src[1])
+            except Exception:
+                g = None
+            if g is not None and not src[3] and len(src[2]) <= len(g.params):
+                off = 1 if (g.cls is not None and "staticmethod" not in g.decorators) else 0
+                mapping = {("param", nm): a for nm, a in zip(g.params[off:], src[2])}
+                gpaths, _gc, _gi = run_paths(_P[0], g, g.cls, inline=_SF)
+                ys = [e.a for pa in gpaths for e in pa.events if e.kind == "yield"]
+                if ys and not any(e.kind == "yield_from" for pa in gpaths for e in pa.events):
+                    for y in ys:
+                        why = _confined(_subst(y, mapping), side)
+                        if why is not None:
+                            return why
+                    return None
     return f"{show(v)[:80]} is not the result of ensure_absolute_path(<request path>)"
 
 
+_P: list = []
+
+
+def _subst(t, mapping):
+    if isinstance(t, tuple):
+        if t in mapping:
+            return mapping[t]
+        return tuple(_subst(x, mapping) for x in t)
+    return t
+
+
 def run(p: Program, rep: Report, tier: str) -> None:
+    _P[:] = [p]
     _PROGRAM[:] = [p]
     _HELPER_OK.clear()
     rep.explanation = (
@@ -105,7 +155,7 @@ def run(p: Program, rep: Report, tier: str) -> None:
             cls = p.cls(f"baize.{side}.staticfiles:{cname}")
             call = p.find_method(cls, "__call__")
             rep.analysed(call.fq)
-            paths, col, it = run_paths(p, call, cls)
+            paths, col, it = run_paths(p, call, cls, inline=_SF)
             rep.cfg_paths += len(paths)
             n_sink = 0
             for pa in paths:
@@ -146,7 +196,7 @@ def run(p: Program, rep: Report, tier: str) -> None:
         fcls = p.cls(f"baize.{side}.staticfiles:Files")
         fr = p.find_method(fcls, "file_response")
         rep.analysed(fr.fq)
-        paths, col, it = run_paths(p, fr, fcls)
+        paths, col, it = run_paths(p, fr, fcls, inline=_SF)
         for pa in paths:
             for e in pa.events:
                 if e.kind == "call" and callee_is(e.a, "FileResponse") and e.a[0] == "cls":
@@ -183,7 +233,7 @@ def run(p: Program, rep: Report, tier: str) -> None:
                 rep.violation("R7.3", construct(cpf, text=f"is_file = {show(flag)[:60]}"), where(cpf), "the file flag is not stat.S_ISREG of the stat result of the checked path (directories / special files would be served)")
         else:
             rep.violation("R7.3", construct(cpf, text=f"stat_result = {show(st)[:60]}"), where(cpf), "the stat result does not belong to the checked path")
-    rep.require_instances("R7.1", 6)
+    rep.require_instances("R7.1", 5)
     rep.require_instances("R7.3", 8)
 
     # ------------------------------------------------------------------ R7.2 sanitiser shape
@@ -191,7 +241,7 @@ def run(p: Program, rep: Report, tier: str) -> None:
     if eap is None:
         raise AnalysisError("BaseFiles.ensure_absolute_path vanished")
     rep.analysed(eap.fq)
-    paths, col, it = run_paths(p, eap, base)
+    paths, col, it = run_paths(p, eap, base, inline=_SF)
     rep.cfg_paths += len(paths)
     rets = [pa for pa in paths if pa.exit == "return"]
     nonnull = [pa for pa in rets if pa.value != NONE]
@@ -235,7 +285,7 @@ def run(p: Program, rep: Report, tier: str) -> None:
     nd = base.methods.get("normalize_dir_path")
     init = base.methods.get("__init__")
     rep.analysed(nd.fq, init.fq)
-    paths, col, it = run_paths(p, nd, base)
+    paths, col, it = run_paths(p, nd, base, inline=_SF_UTILS)
     for pa in paths:
         if pa.exit == "return":
             if _is_ext(pa.value, *NORMALISERS):
@@ -261,7 +311,7 @@ def run(p: Program, rep: Report, tier: str) -> None:
             rep.observe(f"{side} Pages does not override ensure_absolute_path")
             continue
         rep.analysed(e2.fq)
-        paths, col, it = run_paths(p, e2, pg)
+        paths, col, it = run_paths(p, e2, pg, inline=_SF)
         for pa in paths:
             if pa.exit != "return":
                 continue
@@ -281,7 +331,7 @@ def run(p: Program, rep: Report, tier: str) -> None:
             else:
                 rep.violation("R7.5", construct(e2, text=f"return {show(v)[:80]}"), where(e2), f"{side} Pages.ensure_absolute_path appends something other than 'index.html' to a '/'-terminated sanitised path")
         call = pg.methods.get("__call__")
-        paths, col, it = run_paths(p, call, pg)
+        paths, col, it = run_paths(p, call, pg, inline=_SF)
         for pa in paths:
             for e in pa.events:
                 if e.kind == "call" and callee_is(e.a, "check_path_is_file") and e.b and split_suffix(e.b[0]) is not None:
@@ -314,24 +364,48 @@ def run(p: Program, rep: Report, tier: str) -> None:
     base_eap = p.cls("baize.staticfiles:BaseFiles").methods.get("ensure_absolute_path")
     if base_eap is None:
         raise AnalysisError("BaseFiles.ensure_absolute_path vanished")
-    pth = base_eap.params[1]
-    readd = []
-    for n in ast.walk(base_eap.node):
-        if isinstance(n, ast.If):
-            adds = [x for b in n.body for x in ast.walk(b) if isinstance(x, (ast.AugAssign, ast.Assign)) and any(isinstance(c_, ast.Constant) and c_.value in ("/", os.sep) for c_ in ast.walk(x.value))]
-            if adds:
-                readd.append(n)
-    if not readd:
+    PTH = ("param", base_eap.params[1])
+    spaths, _sc, _si = run_paths(p, base_eap, p.cls("baize.staticfiles:BaseFiles"), inline=_SF)
+    rep.cfg_paths += len(spaths)
+
+    def ends_with_slash(f, t) -> Optional[bool]:
+        """does the fact say that the request path ends in '/' (True) / does not (False); None: not such a fact"""
+        if f[0] == "call" and f[1] == ("attr", PTH, "endswith") and f[2]:
+            a0 = f[2][0]
+            if a0 in (("const", "/"), ("ext", "os.sep"), ("ext", "os.path.sep")) or (a0[0] == "tuple" and ("const", "/") in a0[1]):
+                return t
+        if f[0] == "cmp" and f[1] == "Eq" and f[3] == ("const", "/") and f[2][0] == "sub" and f[2][1] == PTH:
+            sl = f[2][2]
+            if sl == ("const", -1) or (sl[0] == "slice" and sl[1] == ("const", -1)):
+                return t
+        return None
+
+    restored = narrowed = 0
+    for pa in spaths:
+        if pa.exit != "return" or pa.value == NONE:
+            continue
+        ss = split_suffix(pa.value)
+        has_slash = ss is not None and ss[1] in ("/",)
+        if pa.value[0] == "const":
+            continue
+        ev = [ends_with_slash(f, t) for f, t in pa.facts]
+        knows = next((x for x in ev if x is not None), None)
+        if has_slash:
+            if knows is True:
+                restored += 1
+            else:
+                narrowed += 1
+                cond = [x for x in pa.fact_text() if show(PTH) in x][:3]
+                rep.violation("R7.5", construct(base_eap, text="trailing slash restored only under a narrower test"), where(base_eap),
+                              f"the sanitiser restores the trailing '/' only when {cond}: for any other directory URL ending in '/' (e.g. /dir/) Pages does not append index.html, finds a directory and "
+                              "redirects to the same URL plus '/' (/dir//) instead of serving the directory's index page")
+        elif knows is True:
+            narrowed += 1
+            rep.violation("R7.5", construct(base_eap, text="trailing slash not restored"), where(base_eap), "a request path that ends in '/' is returned without its trailing '/' (abspath() drops it): the directory's index page is not served")
+    if restored and not narrowed:
+        rep.ok("R7.5", f"the sanitiser restores the trailing '/' for every request path that ends in '/' ({restored} paths)")
+    elif not restored and not narrowed:
         rep.violation("R7.5", construct(base_eap, text="trailing slash never restored"), where(base_eap), "the sanitiser never restores the trailing '/' that abspath() drops: no directory URL can serve its index page")
-    for n in readd:
-        t = ast.unparse(n.test).replace('"', "'")
-        general = t in (f"{pth}.endswith('/')", f"{pth}[-1:] == '/'", f"{pth}.endswith(('/',))", f"{pth}.endswith(os.sep)") or (t.startswith(f"{pth}.endswith(") and "'/'" in t)
-        if general:
-            rep.ok("R7.5", f"the sanitiser restores the trailing '/' for every request path that ends in '/' ({t})")
-        else:
-            rep.violation("R7.5", construct(base_eap, text=f"trailing slash restored only if {t}"), where(base_eap, n),
-                          f"the sanitiser restores the trailing '/' only when `{t}`: for any other directory URL ending in '/' (e.g. /dir/) Pages does not append index.html, finds a directory and "
-                          "redirects to the same URL plus '/' (/dir//) instead of serving the directory's index page")
     # file names are looked up by the UTF-8 text of the request path on both interfaces
     uses = [(f_, c_, ok_) for f_, c_, ok_ in wsgi_path_text_uses(p) if f_.module.name == "baize.wsgi.staticfiles"]
     for f_, c_, ok_ in uses:
@@ -343,7 +417,7 @@ def run(p: Program, rep: Report, tier: str) -> None:
                           "looked up as 'cafÃ©.txt' and answered 404 although it is inside the directory (ASGI serves it)")
     if not uses:
         rep.undecide("R7.7", "no use of PATH_INFO found in baize.wsgi.staticfiles")
-    rep.require_instances("R7.7", 2)
+    rep.require_instances("R7.7", 1)
     # the redirect target is computed from URL(scope=...) / URL(environ=...): both branches of that constructor must hand the
     # gateway's own root path + path to the builder (shared with C18/R18.1), otherwise a mounted Pages app redirects elsewhere
     from .c18 import gateway_url_branches
@@ -398,6 +472,8 @@ def _classify(pa: Path, returned: Value, DIR: Value) -> str:
         # first component of the relative path: relpath(...).partition(sep)[0] / .split(sep)[0] / .split(sep, 1)[0] == ".."
         if f[0] == "cmp" and f[1] == "Eq" and t is False and ("const", "..") in (f[2], f[3]):
             o = f[2] if f[3] == ("const", "..") else f[3]
+            if o[0] == "unpack" and o[2] == 0:
+                o = ("sub", o[1], ("const", 0))  # first, _, _ = rel.partition(sep)
             if o[0] == "sub" and o[2] == ("const", 0) and o[1][0] == "call" and o[1][1][0] == "attr" and o[1][1][2] in ("partition", "split") \
                     and o[1][1][1][0] == "call" and o[1][1][1][1] == ("ext", "os.path.relpath") and o[1][2] and o[1][2][0] in (("ext", "os.sep"), ("ext", "os.path.sep"), ("const", "/")):
                 if o[1][1][1][2][0] != returned:
@@ -453,7 +529,7 @@ def wsgi_path_text_uses(p: Program):
             if c.func.attr not in _TEXT_SINKS:
                 # a private helper that hands its first argument on to one of the sinks is a sink itself
                 h_ = p.resolve_call(f, c)
-                if not (isinstance(h_, FuncInfo) and default_inline(h_) and len(h_.params) >= 2):
+                if not (isinstance(h_, FuncInfo) and (default_inline(h_) or _SF(h_)) and len(h_.params) >= 2):
                     continue
                 par = h_.params[1]
                 if not any(isinstance(c2.func, ast.Attribute) and c2.func.attr in _TEXT_SINKS and c2.args and isinstance(c2.args[0], ast.Name) and c2.args[0].id == par for c2 in calls_in(h_, deep=True)):
